@@ -42,11 +42,12 @@ class HarnessError(Exception):
 class Violation(Exception):
     """The oracle disagreed with the code under test."""
 
-    def __init__(self, kind: str, detail: str = "", where: str = ""):
+    def __init__(self, kind: str, detail: str = "", where: str = "", info=None):
         super().__init__(f"{kind}: {detail}")
         self.kind = kind
         self.detail = detail
         self.where = where  # innermost library frame, when the symptom is an exception
+        self.info = info or {}  # structured facts for known-finding predicates
 
     @property
     def signature(self) -> str:
@@ -340,7 +341,7 @@ def minimise(prop, known, failure, budget_s=20.0):
 
 
 def write_replay(prop, failure, tag="violation"):
-    d = os.path.join(VERIF, "replays", prop.ID)
+    d = os.path.join(VERIF, "replays", prop.ID, "found")  # not auto-replayed; committed regressions live one level up
     os.makedirs(d, exist_ok=True)
     h = hashlib.sha1(json.dumps(failure["case"], sort_keys=True, default=str).encode()).hexdigest()[:10]
     path = os.path.join(d, f"{tag}-{h}.json")
